@@ -159,6 +159,21 @@ def runKid {ρ} [DecidableEq ρ] (S : Sem ρ) (c : KCfg) : Nat → List ρ → K
             -- `_cached_internals` is the key as the run left it (c5dc777); the structure does not move in a run
             some (setKid label (.comp ret ins inner1 o (some (vs, key c (stripKids inner1)))) k1, o)
 
+/-- child `l` of the composite at `path` is run by hand (it has no connected or linked input: nothing of the enclosing
+composites is consulted); `deep`: the record of EVERY composite on the way down is dropped (/repo, 7aeb496), not `deep`:
+only that of the composite that owns the child (seeded change C05-13) -/
+def handAt {ρ} [DecidableEq ρ] (S : Sem ρ) (c : KCfg) (fuel : Nat) (deep : Bool) (l : Nat) : List Nat → Kids ρ → Option (Kids ρ)
+  | [], kids => (runKid S c fuel [] kids l).map (·.1)
+  | p :: ps, kids =>
+    match lookupC p kids with
+    | some (.comp ret ins inner out cache) =>
+      match handAt S c fuel deep l ps inner with
+      | none => none
+      | some inner' =>
+        -- the exposed child's output is value-linked to the composite's: it follows
+        some (setKid p (.comp ret ins inner' (outAt S ret inner') (if deep || ps.isEmpty then none else cache)) kids)
+    | _ => some kids
+
 /-! ## the outermost composite (a workflow: no inputs of its own, every child's output is exposed) -/
 
 structure Root (ρ : Type) where
@@ -176,12 +191,17 @@ inductive Op (ρ : Type) where
   | edit (g : Kids ρ → Kids ρ)          -- a change somewhere below (see `Proofs/CacheForest.lean`: `Conservative`)
   | structural (g : Kids ρ → Kids ρ)    -- … through add_child / remove_child / replace_child of the root itself
   | run
+  | handRunAt (path : List Nat) (l : Nat) (deep : Bool)   -- … at any depth; the root's record goes if `deep` or at depth 0
   | handRun (l : Nat) (clear : Bool)    -- child `l` is run by hand, outside a run of the root; `clear`: that drops the
                                         -- root's record (fixes/C05-hand-run-drops-ancestor-caches.patch; /repo: no)
 
 def stepC {ρ} [DecidableEq ρ] (S : Sem ρ) (c : KCfg) (fuel : Nat) (r : Root ρ) : Op ρ → Option (Root ρ × Option (List (Nat × ρ)))
   | .edit g => some ({ r with kids := g r.kids }, none)
   | .structural g => some ({ kids := g r.kids, cache := none }, none)
+  | .handRunAt path l deep =>
+    match handAt S c fuel deep l path r.kids with
+    | none => none
+    | some k1 => some ({ kids := k1, cache := if deep || path.isEmpty then none else r.cache }, none)
   | .handRun l clear =>
     match runKid S c fuel [] r.kids l with
     | none => none
